@@ -216,6 +216,34 @@ pub fn run_case_with(gd: &GenDict, mk: &dyn Fn() -> Outcome<vibrato::Dictionary>
             }
         }
     }
+    if !counting && sents.iter().all(|o| o.outcome == 0) {
+        // a worker created after another one was dropped on this thread is blank: no tokens before its first
+        // reset_sentence, and tokenize() without a sentence yields none (observed as one more, empty, sentence)
+        let last = sentences.iter().rev().find(|s| !s.is_empty());
+        let res = std::panic::catch_unwind(std::panic::AssertUnwindSafe(|| {
+            if let Some(s) = last {
+                let mut used = tokenizer.new_worker();
+                used.reset_sentence(s);
+                used.tokenize();
+                drop(used);
+            }
+            let mut w = tokenizer.new_worker();
+            let pre = w.num_tokens();
+            w.tokenize();
+            let (tokens, has_unk) = token_terms(&w);
+            (pre, tokens, has_unk, w.verif_groupable())
+        }));
+        sents.push(match res {
+            Ok((pre, tokens, has_unk, group)) => SentObs {
+                text: String::new(), outcome: 0, ntokens: tokens.len(), tokens, ends: "[]".into(), eos: "None".into(),
+                group, cinfos: "[]".into(), counts: None, nnodes: 0, has_unk, alt: vec![], pre,
+            },
+            Err(_) => SentObs {
+                text: String::new(), outcome: 2, tokens: vec![], ends: "[]".into(), eos: "None".into(),
+                group: vec![], cinfos: "[]".into(), counts: None, ntokens: 0, nnodes: 0, has_unk: false, alt: vec![], pre: 0,
+            },
+        });
+    }
     if threads > 0 {
         // independent workers of the one shared tokenizer on other threads, each going through
         // the sentences in its own order while the others run
@@ -576,7 +604,10 @@ pub fn run(prop: &str, seed: u64, n: usize, outdir: &str, _corpus: Option<&str>)
                     souts.push((if r.is_ok() { 0 } else { 2 }, unc));
                 }
             }
-            let bterm = format!("(C10Bigram {} {} {} {} {})", sub, if edit { which + 1 } else { 0 }, cbool(dual), code, clist(&souts, |(o, u)| format!("({}, {})", o, cbool(*u))));
+            let maxl = gd.sys.iter().chain(gd.unk.iter()).map(|r| r.lid).max().unwrap_or(0);
+            let maxr = gd.sys.iter().chain(gd.unk.iter()).map(|r| r.rid).max().unwrap_or(0);
+            let bterm = format!("(C10Bigram {} {} {} {} {} {} {} {} {} {} {})", sub, if edit { which + 1 } else { 0 }, cbool(dual), code, clist(&souts, |(o, u)| format!("({}, {})", o, cbool(*u))),
+                cstr(&fs[0]), cstr(&fs[1]), cstr(&fs[2]), maxl, maxr, cbool(out.built == 0));
             let bhuman = format!("bigram connector dual={} edited={} (0 none, 1 right, 2 left, 3 cost) right={} left={} cost={} ; other files: {} sentences={:?}", dual, if edit { which + 1 } else { 0 }, json_str(&fs[0]), json_str(&fs[1]), json_str(&fs[2]), out.human, sentences);
             *dist.entry(format!("bigram_{}_outcome_{}", if edit { "edited" } else { "valid" }, code)).or_default() += 1;
             sh.push_h(format!("seed:{}:bigram", sub), bterm, bhuman);
